@@ -38,6 +38,12 @@ class Descriptor(DescriptorBase):
             }
             if len(branches) > 1:
                 raise DescriptorError("All branches should have the same length")
+        # make sure all keys are either taproot or not - on re-flagged copies:
+        # the key objects of the caller may be in use by another descriptor
+        if key is not None:
+            key = key.with_key_flag(taproot)
+        if miniscript is not None:
+            miniscript = miniscript.with_key_flag(taproot)
         self.sh = sh
         self.wsh = wsh
         self.key = key
@@ -45,9 +51,6 @@ class Descriptor(DescriptorBase):
         self.wpkh = wpkh
         self.taproot = taproot
         self.taptree = taptree or TapTree()
-        # make sure all keys are either taproot or not
-        for k in self.keys:
-            k.taproot = taproot
 
     @property
     def script_len(self):
